@@ -945,9 +945,6 @@ class Fxp():
             self.real = self.astype(complex).real
             self.imag = self.astype(complex).imag
 
-        # update dtype
-        self._update_dtype()
-
         # vdtype
         if raw:
             if vdtype is not None:
@@ -956,6 +953,9 @@ class Fxp():
             self.vdtype = original_vdtype
         if self.vdtype is not None and self.vdtype != complex and np.issubdtype(self.vdtype, np.integer) and self.n_frac > 0:
             self.vdtype = float  # change to float type if Fxp has fractional part (also after a raw store, e.g. the one of resize)
+
+        # update dtype (after the value type: the complex suffix follows what is stored now)
+        self._update_dtype()
 
         # check inaccuracy
         if not np.equal(val, new_val/conv_factor).all() :
